@@ -1678,7 +1678,7 @@ def c19(tier):
     rec = recorded_lines('squitters.txt', 3000 if tier == 'quick' else 30000)
     pres = [('i', ['-i', 'aAews']), ('i', ['-i', 'e']), ('i', ['-i', 'Q', '-i', 'w']), ('o', ['-o', 'N']), ('o', ['-o', 'dV']), ('c', ['-c']),
             ('u', ['-u', '0']), ('u', ['--update=-1']), ('u', ['-u', '1000']), ('u', ['-u', '100']), ('u', ['-u', '61']), ('M', ['-M', '17', '-M', '4']),
-            ('D', ['-D', os.path.join(wd, 'downlink.log')])]
+            ('D', ['-D', os.path.join(wd, 'downlink.log')]), ('D', ['-D', '/dev/full']), ('D', ['-D', os.path.join(wd, 'no-such-dir', 'x.log')])]
     nrep = 2 if tier == 'quick' else 30
     for rep_i in range(nrep):
         for name, extra in pres:
